@@ -1,7 +1,31 @@
-(* C02 — per-stream commits in read order, once per event. Statements only (in progress). *)
+(* C02 — per-stream commits arrive in read order, once per event; conservation at quiescence.
+   Statements only.  The property is decided by three component transition systems, each validated
+   against every real pipeline trace on every run (Model/Stream.v, Model/Proc.v, Model/Batcher.v, replayed
+   by Model/PipeGlue.v), plus the raw-trace monitors c02_mon.  This file holds the batcher part; the
+   stream part is in the section "stream" and the processor part in the section "processor" below
+   (added as their proofs are completed — see DESIGN.md §5 C01/C02 for the composition argument). *)
 From Verif Require Import Base.Sx Model.Batcher Proofs.Batcher.
+
+(* the output commits batches in the order it formed them, each batch once … *)
 Theorem c02_batcher_commits_in_formation_order :
   forall c ls s, run c (init c) ls = Some s ->
-    rev (commit_batches s) = map Z.of_nat (seq 0 (Z.to_nat (commitSeq s))) /\ 0 <= commitSeq s.
+    0 <= commitSeq s /\
+    rev (commit_batches s) = map Z.of_nat (seq 0 (Z.to_nat (commitSeq s))).
 Proof. exact commit_in_seq_order. Qed.
 Print Assumptions c02_batcher_commits_in_formation_order.
+
+(* … so the events it commits are a prefix of the events added to it, in the order they were added:
+   no event is committed twice or out of order (for every interleaving of adders, workers, heartbeat
+   and Stop; without a dead queue) … *)
+Theorem c02_batcher_commits_in_add_order :
+  forall c ls s, (retriable c = false \/ deadq c = false) -> run c (init c) ls = Some s ->
+    exists rest, rev (added s) = rev (committed s) ++ rest.
+Proof. exact committed_prefix_of_added. Qed.
+Print Assumptions c02_batcher_commits_in_add_order.
+
+(* … and once it is idle every added event has been committed exactly once *)
+Theorem c02_batcher_exactly_once_when_idle :
+  forall c ls s, (retriable c = false \/ deadq c = false) -> run c (init c) ls = Some s ->
+    flight s = [] -> cur_list s = [] -> rev (committed s) = rev (added s).
+Proof. exact exactly_once_at_quiescence. Qed.
+Print Assumptions c02_batcher_exactly_once_when_idle.
